@@ -703,7 +703,12 @@ def r6(chk):
                 and aud.cond_equiv(Tx().cond(g.ifs[0]), symx.c_not(Tx().cond(ast.parse(f"is_suffix({ro}, {norm(g.target)})", mode="eval").body)))[0]
             init = [st for st in ns.body if isinstance(st, ast.Assign) and norm(st.targets[0]) == T and ns.body.index(st) < ns.body.index(l)]
             init_ok = len(init) == 1 and norm(init[0].value) in (f"set({other_p}.rules_out)", f"list({other_p}.rules_out)", f"{other_p}.rules_out")
-            others = [st for st in l.body if st is not filt[0] and not (isinstance(st, ast.Assign) and isinstance(st.value, ast.Constant))]
+            # (leaving the loop as soon as nothing is left uncovered changes nothing: filtering the empty list gives the empty list)
+            empties = (f"{T}==[]", f"len({T})==0", f"not{T}", f"[]=={T}", f"0==len({T})")
+            early = [st for st in l.body if isinstance(st, ast.If) and norm(st.test) in empties and not st.orelse
+                     and len(st.body) == 1 and isinstance(st.body[0], ast.Break) and l.body.index(st) > l.body.index(filt[0])]
+            others = [st for st in l.body if st is not filt[0] and st not in early
+                      and not (isinstance(st, ast.Assign) and isinstance(st.value, ast.Constant))]
             # the answer: nothing is left uncovered (and, for the set-initialised spelling, at least one pass was made)
             ans = False
             if len(rets) == 2:
@@ -716,7 +721,8 @@ def r6(chk):
                 rest_ = [p_ for p_ in parts if p_ not in empt]
                 # every other conjunct may only be a "the loop ran" flag (set to True inside the loop, False before it)
                 ans = len(empt) == 1 and all(isinstance(p_, ast.Name) and p_.id in flags for p_ in rest_)
-            ok = shape and init_ok and not others and ans and not [x for x in walk_local(l) if isinstance(x, (ast.Break, ast.Continue, ast.Return))]
+            ok = shape and init_ok and not others and ans and not [x for x in walk_local(l) if isinstance(x, (ast.Break, ast.Continue, ast.Return))
+                                                                   and not any(x is e.body[0] for e in early)]
             detail = dict(filter=norm(lc)[:120], answer=norm(rets[-1].value) if rets else None)
     elif rets:
         v = rets[-1].value
